@@ -28,6 +28,11 @@ var templates = []string{
 	`class Foo { function m() { return 1; } } class FOO { function m() { return 2; } } $o = new foo(); emit($o->m());`,
 	// functions table
 	`function f1() { return 1; } function f2() { return 2; } function f3() { return 3; } emit(f1() + f2() * 10 + f3() * 100);`,
+	// state a program leaves behind: superglobals, globals, static properties, static locals
+	`emit(isset($_SERVER["LEAK"]) ? 1 : 0); $_SERVER["LEAK"] = 1; emit(isset($_SERVER["LEAK"]) ? 1 : 0);`,
+	`emit(isset($_GET["k"]) ? 1 : 0); $_GET["k"] = 5; emit(isset($_GET["k"]) ? 1 : 0); emit(isset($_POST["k"]) ? 1 : 0); $_POST["k"] = 6; emit(isset($_COOKIE["k"]) ? 1 : 0); $_COOKIE["k"] = 7;`,
+	`function g() { global $gv; $gv = ($gv ?? 0) + 1; return $gv; } emit(g()); emit(g());`,
+	`class S { public static $n = 0; } S::$n++; emit(S::$n); function c() { static $k = 0; $k++; return $k; } emit(c()); emit(c());`,
 }
 
 func runLog(src string) ([]sx.Obs, bool) {
@@ -57,7 +62,7 @@ func sameLog(a, b []sx.Obs) bool {
 // H_order: the output under EVERY iteration order of every (2..3 entry) Go map ranged by
 // origami code equals the output under insertion order.
 func H_order() {
-	k := symx.Choose("template", len(templates))
+	k := symx.Choose("template", 10)
 	ref, ok := runLog(templates[k])
 	symx.Assert(ok, "template runs (reference order)")
 	if !ok {
@@ -152,6 +157,8 @@ func H_pairs() {
 	if !ok2 {
 		return
 	}
-	symx.Assert(sameLog(alone, after), "B behaves the same whether or not A ran earlier on another VM")
+	// recorded finding: $_SERVER is cached in a package-level variable (the C11 root cause), so what one
+	// program stored in it is still there for a program run later on a fresh VM of the same process
+	symx.AssertKnown(sameLog(alone, after), "B behaves the same whether or not A ran earlier on another VM", b == 10 || b == 11, "C20-superglobal-cache-outlives-vm")
 	symx.Reach("end")
 }
